@@ -263,3 +263,23 @@ func Value(r *rand.Rand, tag string, n int) []byte {
 	}
 	return []byte(fmt.Sprintf("%s#%d", tag, n))
 }
+
+// SetBelow / DeleteBelow change the level under the top layer directly (the base when there is one layer): what a sibling
+// cache wrap of the same parent, or the owner of the outer store, does while the (just written, hence empty) top layer
+// stays in use.
+func (o *Overlay) SetBelow(k, v []byte) {
+	vv := append([]byte{}, v...)
+	if n := len(o.Layers); n >= 2 {
+		o.Layers[n-2][string(k)] = &vv
+		return
+	}
+	o.Base[string(k)] = vv
+}
+
+func (o *Overlay) DeleteBelow(k []byte) {
+	if n := len(o.Layers); n >= 2 {
+		o.Layers[n-2][string(k)] = nil
+		return
+	}
+	delete(o.Base, string(k))
+}
